@@ -14,6 +14,8 @@ CONSTANTS
   AllowCliClose = TRUE
   MaxHops = 1000
   MaxBurst = 1000
+  CanonKinds = FALSE
   PoolAny = FALSE
+  Debug = FALSE
 POSTCONDITION Accepted
 CHECK_DEADLOCK FALSE
